@@ -123,7 +123,7 @@ def tlc(module, cfg, workers=4, timeout=600, env=None, coverage=False, extra=(),
     meta = os.path.join(BUILD, "tlc", "%s_%d_%d" % (metaname or module, os.getpid(), _tlc_counter[0]))
     shutil.rmtree(meta, ignore_errors=True)
     os.makedirs(meta, exist_ok=True)
-    jopts = "-XX:+UseParallelGC -XX:ParallelGCThreads=2 -Xss512m -Xmx%s" % heap
+    jopts = "-XX:+UseParallelGC -XX:ParallelGCThreads=2 -Xss192m -Xmx%s" % heap
     if dfs:
         jopts += " -Dtlc2.tool.queue.IStateQueue=StateDeque"
     cmd = ["java"] + jopts.split() + ["-cp", TLAJAR, "tlc2.TLC", "-workers", str(workers),
